@@ -79,18 +79,18 @@ type EngCfg struct {
 }
 
 type Eng struct {
-	scopeStrategy string // "", wildcard, hierarchic, exact (drawn for C09)
-	t       *rapid.T
-	cfg     EngCfg
-	w       *h.World
-	clients []string
-	grants  []*Grant
-	creds   []*Cred
-	log     []string
-	rsMode  int
-	labels  map[string]bool
-	edits   map[string]int // number of registration edits per client
-	nCred   int
+	scopeStrategy string // "", wildcard, hierarchic, exact (drawn for C05 and C09)
+	t             *rapid.T
+	cfg           EngCfg
+	w             *h.World
+	clients       []string
+	grants        []*Grant
+	creds         []*Cred
+	log           []string
+	rsMode        int
+	labels        map[string]bool
+	edits         map[string]int // number of registration edits per client
+	nCred         int
 	// digest parts for distinctness
 	kinds []string
 	// life spans in force
@@ -478,6 +478,7 @@ func (e *Eng) Run() {
 	add("authorize", e.actAuthorize)
 	add("redeem", e.actRedeem)
 	add("refresh", e.actRefresh)
+	add("overlappingRefresh", e.actOverlappingRefresh)
 	add("revoke", e.actRevoke)
 	add("password", e.actPassword)
 	add("clientcreds", e.actClientCreds)
